@@ -444,16 +444,58 @@ def check(repo: Repo, run: Run) -> None:
     signs = "seconds.startswith('+')" in s and "seconds.startswith('-')" in s and "sign = -1" in s and "sign * fsum(" in s
     run.shape("C11.D1", "DurationType.__new__|sign", signs, "an optional sign applies to the whole sum", ct.loc(dn))
     # D2 -----------------------------------------------------------------
+    # each accessor's returned expression (locals substituted, named constants evaluated) is evaluated as a constant
+    # expression for probe values of self.total_seconds(): it must be the whole duration in that unit, truncated
+    # toward zero (so negative durations round toward zero too), wrapped in IntType
+    import math
+
+    from ..core.consteval import ConstEval, NotConstant
+    from ..core.paths import clone as _clone, paths_of as _paths_of
+
     dm = class_methods_n(dcls)
-    for name, factor in (("getHours", "self.total_seconds() / 60 / 60"), ("getMinutes", "self.total_seconds() / 60"), ("getSeconds", "self.total_seconds()"), ("getMilliseconds", "self.total_seconds() * 1000")):
+    PROBES = (0.0, 0.4, 59.999, 61.0, 3599.5, 3723.25, 90061.75, -0.4, -61.0, -3723.25, -90061.75, 315576000000.0)
+    for name, per_unit in (("getHours", 3600.0), ("getMinutes", 60.0), ("getSeconds", 1.0), ("getMilliseconds", 0.001)):
         fn = dm.get(name)
         if fn is None:
             raise AnchorMissing(f"DurationType.{name}")
-        rets = [n for n in ast.walk(fn) if isinstance(n, ast.Return) and n.value is not None]
-        inner = ast.unparse(rets[0].value) if rets else ""
-        alt = {"getHours": ["self.total_seconds() / 3600", "self.total_seconds() // 3600"], "getMinutes": ["self.total_seconds() // 60"], "getSeconds": [], "getMilliseconds": ["self.total_seconds() * 1000.0"]}[name]
-        ok = any(f"int({f})" in inner for f in [factor] + alt)
-        run.ob("C11.D2", f"DurationType.{name}", ok, f"{name} = `{inner}`; definition: the whole duration expressed in that unit, truncated", ct.loc(fn))
+        try:
+            rpaths = [p for p in _paths_of(ct, dcls, fn) if p.kind == "return" and p.value is not None]
+        except OverflowError:
+            rpaths = []
+        if len(rpaths) != 1:
+            run.inconclusive("C11.D2", f"DurationType.{name}", f"{len(rpaths)} returning paths")
+            continue
+        v = strip_cast(rpaths[0].value)
+        shown = ast.unparse(v)[:70]
+        wrapped = isinstance(v, ast.Call) and (dotted(v.func) or "").split(".")[-1] == "IntType" and len(v.args) == 1
+        inner = v.args[0] if wrapped else v
+        me = fn.args.args[0].arg
+
+        class _X(ast.NodeTransformer):
+            def visit_Call(self, node: ast.Call) -> ast.AST:
+                if isinstance(node.func, ast.Attribute) and node.func.attr == "total_seconds" and ast.unparse(node.func.value) == me and not node.args:
+                    return ast.Name(id="__total_seconds__", ctx=ast.Load())
+                return self.generic_visit(node)
+
+        expr = _X().visit(_clone(inner))
+        bad, unknown = None, None
+        for x in PROBES:
+            try:
+                got = ConstEval(ct, dcls, None).ev(expr, {"__total_seconds__": x})
+            except (NotConstant, ValueError, ZeroDivisionError, OverflowError) as ex:
+                unknown = str(ex)
+                break
+            want = math.trunc(x / per_unit) if per_unit >= 1 else math.trunc(x * 1000)
+            if not isinstance(got, int) or isinstance(got, bool) or got != want:
+                bad = (x, got, want)
+                break
+        if unknown is not None:
+            run.inconclusive("C11.D2", f"DurationType.{name}", f"`{shown}` is outside the constant-evaluated subset ({unknown[:60]})")
+        else:
+            run.ob("C11.D2", f"DurationType.{name}", bad is None and wrapped,
+                   f"{name} = `{shown}`: " + ("the whole duration in that unit, truncated toward zero, for all probe durations" if bad is None and wrapped else
+                                              (f"for a duration of {bad[0]} s it yields {bad[1]!r}, the definition gives {bad[2]}" if bad is not None else "the result is not wrapped in IntType")),
+                   ct.loc(fn))
     st = dm.get("__str__")
     run.ob("C11.D2", "DurationType.__str__", st is not None and "int(self.total_seconds())" in ast.unparse(st) and "s'" in ast.unparse(st).replace('"', "'"), "string(duration) is whole seconds followed by 's'", ct.loc(st) if st else str(ct.path))
     check_exact_from_native(repo, run)
